@@ -275,6 +275,11 @@ class Scenario:
             simu.mesh = self.replacement_mesh(key, live)
             # the mesh setter re-initialises conditions and solutions (documented in the setter): re-enter the conditions
             self.apply_bc(simu, cfg)
+        elif op == "copymesh":
+            # the simulation continues on a COPY of its current mesh (Mesh.copy(), taken after the assemblies already made on the original)
+            simu.mesh = simu.mesh.copy()
+            cfg["meshkeys"].append(cfg["mesh"])
+            self.apply_bc(simu, cfg)
         elif op == "rebc":
             cfg["bc"] = {0: 1, 1: 2, 2: 0}.get(cfg["bc"], 0)
             self.apply_bc(simu, cfg)
@@ -716,8 +721,8 @@ class WeakFormsScn(Scenario):
         field = Field(mesh.groupElem, 1)
         wf = Models.WeakForms(field,
                               computeK=BiLinearForm(lambda u, v: coef["k"] * u.grad.dot(v.grad) + 0.3 * u.dot(v)),
-                              computeC=BiLinearForm(lambda u, v: 0.5 * u.dot(v)),
-                              computeM=BiLinearForm(lambda u, v: 0.8 * u.dot(v)),
+                              computeC=BiLinearForm(lambda u, v: 0.5 * coef["k"] * u.dot(v)),
+                              computeM=BiLinearForm(lambda u, v: (0.8 + 0.1 * coef["k"]) * u.dot(v)),
                               computeF=LinearForm(lambda v: 0.4 * v),
                               thickness=cfg["params"]["thickness"])
         simu = Simulations.WeakForms(mesh, wf)
@@ -783,10 +788,10 @@ def cases(tier, seed):
                 out.append({"kind": "history", "scn": name, "ops": list(seq), "regime": "each"})
     if tier == "quick":
         # a restored earlier mesh of the history that is then changed in place: depth 4 over {solve+save, replace mesh, restore iteration 0, re-coordinate}
-        sub = ["solve_save", "replacemesh", "setiter0", "setcoord"]
+        sub = ["solve_save", "replacemesh", "copymesh", "setiter0", "setcoord"]
         for name in ("elastic", "thermal", "beam"):
             for seq in itertools.product(sub, repeat=4):
-                if seq[0] == "solve_save" and "replacemesh" in seq[1:3] and "setiter0" in seq[2:]:
+                if seq[0] == "solve_save" and (seq[1] in ("replacemesh", "copymesh") or seq[2] in ("replacemesh", "copymesh")) and "setiter0" in seq[2:]:
                     out.append({"kind": "history", "scn": name, "ops": list(seq), "regime": "each"})
     for what in ("replace_mesh", "useTimoshenko"):
         out.append({"kind": "public", "what": what})
